@@ -37,7 +37,11 @@ var (
 	consts       = map[string]int64{} // shared/consts exported constants
 )
 
-func fail(item, why string) { unrecognised = append(unrecognised, item+": "+why) }
+func fail(item, why string) {
+	// Coq strings have no backslash escapes: keep the message free of quotes and backslashes
+	why = strings.NewReplacer("\"", "'", "\\", "/", "\n", " ").Replace(why)
+	unrecognised = append(unrecognised, item+": "+why)
+}
 
 func parseDir(dir string) map[string]*ast.File {
 	pkgs, err := parser.ParseDir(fset, dir, func(fi os.FileInfo) bool { return !strings.HasSuffix(fi.Name(), "_test.go") }, parser.ParseComments)
@@ -713,7 +717,11 @@ func constants(repo string) {
 		for _, c := range []byte(marker) {
 			bs = append(bs, int64(c))
 		}
-		fmt.Fprintf(&out, "Definition gen_jt1078_marker : list N := %s.\n\n", nlist(bs))
+		if marker == "" {
+			fail("jt1078_marker", "no p.ID != <string literal> comparison found in decodeHead")
+		} else {
+			fmt.Fprintf(&out, "Definition gen_jt1078_marker : list N := %s.\n\n", nlist(bs))
+		}
 	} else {
 		fail("jt1078_marker", "decodeHead not found")
 	}
